@@ -263,7 +263,8 @@ def stepI (c : Cfg) (x : Inst) (e : Ev) : Option Inst :=
       else none
   | .hBox =>            -- Box::new(df)
       if x.h = .sp1 then some { x with h := .sp2, box := .live } else none
-  | .hMmap ok =>
+  | .hMmap ok =>        -- the stack: ONE resource of fixed extent (what mmap(len) mapped is what munmap(addr, len) releases): valid for the
+                        -- flags of Props/C06 `fixedExtentFlags` only — not MAP_GROWSDOWN / MAP_HUGETLB / MAP_FIXED (`gen_stack_mapping_fixed_extent`)
       if x.h = .sp2 then
         if ok then some { x with h := .sp3, stack := .live }
         else some { x with h := if c.mmapCleanup then .uBox false else .failed false }   -- `?`: as written returns at once
